@@ -116,3 +116,17 @@ func (v *VerifInstance) Lifetime() time.Duration             { return v.C.revise
 func (v *VerifInstance) TokenID() uint32                     { return v.C.securityTokenID }
 func (v *VerifInstance) ChannelID() uint32                   { return v.C.secureChannelID }
 func (v *VerifInstance) Algo() *uapolicy.EncryptionAlgorithm { return v.C.algo }
+
+// InstanceObjs returns the instance objects stored per table key (comparable with VerifInstance.C).
+func (v VerifChannel) InstanceObjs() map[uint32][]any {
+	v.S.instancesMu.Lock()
+	defer v.S.instancesMu.Unlock()
+	m := map[uint32][]any{}
+	for k, l := range v.S.instances {
+		m[k] = []any{}
+		for _, i := range l {
+			m[k] = append(m[k], i)
+		}
+	}
+	return m
+}
